@@ -75,7 +75,14 @@ fn main() {
         let t = usvg::Tree::from_data(&data, &o).unwrap();
         let mut w = usvg::WriteOptions::default();
         w.preserve_text = args.get(3).map(|s| s == "preserve").unwrap_or(false);
+        if let Ok(p) = std::env::var("VERIF_PREFIX") {
+            w.id_prefix = Some(p);
+        }
         println!("{}", t.to_string(&w));
+        return;
+    }
+    if args[1] == "rt" {
+        c08::debug(&args[2], args.get(3).and_then(|x| x.parse().ok()).unwrap_or(0), args.get(4).and_then(|x| x.parse().ok()).unwrap_or(1.0));
         return;
     }
     if args[1] == "c14dbg" {
